@@ -33,38 +33,69 @@ static void result(const uint8_t * dg, size_t n, const char * flag)
 	printf("ok "); drv_puthex(dg, n); printf(" %s\n", flag);
 }
 
+/* Init, one Update per part, Final - TWICE on the same context object (the second pass starts from
+ * whatever the first Final left in it): both digests must agree and the object must be wiped after
+ * each Final.  Every part is overwritten and freed as soon as its Update has returned; INITCALL does
+ * the same with the HMAC key as soon as Init has returned (sha256.h: "with Klen bytes of key from K"
+ * - the key is consumed by Init, nothing says it must outlive the call). */
 #define STREAM(CTX, INITCALL, UPDATE, FINAL, DLEN, FIRST)				\
 	do {										\
-		CTX * c = malloc(sizeof(CTX)); uint8_t * dg = malloc(DLEN); int k;	\
+		CTX * c = malloc(sizeof(CTX)); uint8_t * dg = drv_outbuf(DLEN);		\
+		uint8_t * dg2 = drv_outbuf(DLEN); int k, pass; const char * fl = "z";	\
 		memset(c, 0xAA, sizeof(CTX));						\
-		INITCALL;								\
-		for (k = (FIRST); k < n; k++) {						\
-			size_t l; uint8_t * p = drv_unhex(tok[k], &l, 0);		\
-			UPDATE(c, p, l);						\
-			free(p);							\
+		for (pass = 0; pass < 2; pass++) {					\
+			INITCALL;							\
+			for (k = (FIRST); k < n; k++) {					\
+				size_t l; uint8_t * p = drv_unhex(tok[k], &l, 0);	\
+				uint8_t * cp = drv_input_copy(p, l);			\
+				UPDATE(c, p, l);					\
+				drv_input_check(cp, p, l, "input-modified ");		\
+				drv_scribble_free(p, l);				\
+			}								\
+			FINAL(pass ? dg2 : dg, c);					\
+			if (strcmp(zflag(c, sizeof(CTX)), "z") != 0) fl = "nz";		\
 		}									\
-		FINAL(dg, c);								\
-		result(dg, DLEN, zflag(c, sizeof(CTX)));				\
-		free(c); free(dg);							\
+		if (memcmp(dg, dg2, DLEN) != 0) printf("context-reuse-mismatch ");	\
+		result(dg, DLEN, fl);							\
+		free(c); free(dg); free(dg2);						\
 	} while (0)
 
+#define HKEY_INIT(INIT)									\
+	do {										\
+		size_t kl_; uint8_t * key_ = drv_unhex(tok[2], &kl_, 0);		\
+		INIT(c, key_, kl_);							\
+		drv_scribble_free(key_, kl_);						\
+	} while (0)
+
+/* One-shot functions are stateless: the call is made twice on the SAME buffers - first with every
+ * byte flipped (result discarded), then with the real contents put back. */
 #define ONESHOT(BUF, DLEN)								\
 	do {										\
 		size_t l; uint8_t * p = drv_unhex(tok[2], &l, 0);			\
-		uint8_t * dg = malloc(DLEN);						\
+		uint8_t * dg = drv_outbuf(DLEN); uint8_t * cp;				\
+		drv_flip(p, l); BUF(p, l, dg); drv_flip(p, l); drv_junk(dg, DLEN);	\
+		cp = drv_input_copy(p, l);						\
 		BUF(p, l, dg);								\
+		drv_input_check(cp, p, l, "input-modified ");				\
+		drv_scribble_free(p, l);						\
 		result(dg, DLEN, "-");							\
-		free(p); free(dg);							\
+		free(dg);								\
 	} while (0)
 
 #define HMAC_ONESHOT(BUF, DLEN)								\
 	do {										\
 		size_t kl, l; uint8_t * key = drv_unhex(tok[2], &kl, 0);		\
 		uint8_t * p = drv_unhex(tok[3], &l, 0);					\
-		uint8_t * dg = malloc(DLEN);						\
+		uint8_t * dg = drv_outbuf(DLEN); uint8_t * cp, * ck;			\
+		drv_flip(key, kl); drv_flip(p, l); BUF(key, kl, p, l, dg);		\
+		drv_flip(key, kl); drv_flip(p, l); drv_junk(dg, DLEN);			\
+		cp = drv_input_copy(p, l); ck = drv_input_copy(key, kl);		\
 		BUF(key, kl, p, l, dg);							\
+		drv_input_check(cp, p, l, "input-modified ");				\
+		drv_input_check(ck, key, kl, "key-modified ");				\
+		drv_scribble_free(key, kl); drv_scribble_free(p, l);			\
 		result(dg, DLEN, "-");							\
-		free(key); free(p); free(dg);						\
+		free(dg);								\
 	} while (0)
 
 static void put_words_be(const uint32_t * w, size_t nw)
@@ -89,7 +120,7 @@ static void get_words_be(const uint8_t * b, uint32_t * w, size_t nw)
 		size_t sl, bl; uint8_t * st = drv_unhex(tok[1], &sl, 0);		\
 		uint8_t * bf = drv_unhex(tok[4], &bl, 0);				\
 		uint64_t c0 = strtoull(tok[2], NULL, 16), c1 = strtoull(tok[3], NULL, 16);	\
-		CTX * c = malloc(sizeof(CTX)); uint8_t * dg = malloc(DLEN); int k;	\
+		CTX * c = malloc(sizeof(CTX)); uint8_t * dg = drv_outbuf(DLEN); int k;	\
 		if (sl != 4 * (NW) || bl != 64) { printf("bad-case\n"); free(st); free(bf); free(c); free(dg); break; } \
 		memset(c, 0xAA, sizeof(CTX));						\
 		get_words_be(st, c->state, NW); memcpy(c->buf, bf, 64); SETCOUNT;	\
@@ -100,7 +131,7 @@ static void get_words_be(const uint8_t * b, uint32_t * w, size_t nw)
 			size_t l; uint8_t * p = drv_unhex(tok[k], &l, 0);		\
 			UPDATE(c, p, l);						\
 			pos += (size_t)sprintf(save + pos, "/%016llx", (unsigned long long)(GETCOUNT)); \
-			free(p);							\
+			drv_scribble_free(p, l);					\
 		}									\
 		save[pos] = 0;								\
 		FINAL(dg, c);								\
@@ -131,16 +162,14 @@ int main(void)
 		else if (n == 3 && strcmp(tok[1], "b") == 0 && strcmp(tok[0], "md5") == 0)
 			ONESHOT(MD5_Buf, 16);
 		else if (n >= 3 && strcmp(tok[1], "s") == 0 && strncmp(tok[0], "hmac-", 5) == 0) {
-			size_t kl; uint8_t * key = drv_unhex(tok[2], &kl, 0);
 			if (strcmp(tok[0], "hmac-sha256") == 0)
-				STREAM(HMAC_SHA256_CTX, HMAC_SHA256_Init(c, key, kl), HMAC_SHA256_Update, HMAC_SHA256_Final, 32, 3);
+				STREAM(HMAC_SHA256_CTX, HKEY_INIT(HMAC_SHA256_Init), HMAC_SHA256_Update, HMAC_SHA256_Final, 32, 3);
 			else if (strcmp(tok[0], "hmac-sha1") == 0)
-				STREAM(HMAC_SHA1_CTX, HMAC_SHA1_Init(c, key, kl), HMAC_SHA1_Update, HMAC_SHA1_Final, 20, 3);
+				STREAM(HMAC_SHA1_CTX, HKEY_INIT(HMAC_SHA1_Init), HMAC_SHA1_Update, HMAC_SHA1_Final, 20, 3);
 			else if (strcmp(tok[0], "hmac-md5") == 0)
-				STREAM(HMAC_MD5_CTX, HMAC_MD5_Init(c, key, kl), HMAC_MD5_Update, HMAC_MD5_Final, 16, 3);
+				STREAM(HMAC_MD5_CTX, HKEY_INIT(HMAC_MD5_Init), HMAC_MD5_Update, HMAC_MD5_Final, 16, 3);
 			else
 				printf("bad-case\n");
-			free(key);
 		} else if (n == 4 && strcmp(tok[1], "b") == 0 && strcmp(tok[0], "hmac-sha256") == 0)
 			HMAC_ONESHOT(HMAC_SHA256_Buf, 32);
 		else if (n == 4 && strcmp(tok[1], "b") == 0 && strcmp(tok[0], "hmac-sha1") == 0)
@@ -151,10 +180,17 @@ int main(void)
 			size_t pl, sl; uint8_t * pw = drv_unhex(tok[1], &pl, 0); uint8_t * salt = drv_unhex(tok[2], &sl, 0);
 			uint64_t c = strtoull(tok[3], NULL, 16);
 			size_t dk = (size_t)strtoull(tok[4], NULL, 10);
-			uint8_t * out = malloc(dk ? dk : 1);
+			uint8_t * out = drv_outbuf(dk);
+			/* same buffers, other contents, one iteration: whatever is remembered about them is stale */
+			if (c > 0) {
+				drv_flip(pw, pl); drv_flip(salt, sl);
+				PBKDF2_SHA256(pw, pl, salt, sl, 1, out, dk);
+				drv_flip(pw, pl); drv_flip(salt, sl); drv_junk(out, dk);
+			}
 			PBKDF2_SHA256(pw, pl, salt, sl, c, out, dk);
+			drv_scribble_free(pw, pl); drv_scribble_free(salt, sl);
 			result(out, dk, "-");
-			free(pw); free(salt); free(out);
+			free(out);
 		} else if (n == 3 && strncmp(tok[0], "xform-", 6) == 0) {
 			size_t sl, bl; uint8_t * st = drv_unhex(tok[1], &sl, 0); uint8_t * blk = drv_unhex(tok[2], &bl, 0);
 			if (strcmp(tok[0], "xform-sha256") == 0 && sl == 32 && bl == 64) {
